@@ -46,7 +46,7 @@ type Logbitp struct {
 // Call the function with the arguments provided.
 func (f *Logbitp) Call(s *slip.Scope, args slip.List, depth int) slip.Object {
 	slip.CheckArgCount(s, depth, f, args, 2, 2)
-	index, ok := args[0].(slip.Fixnum)
+	index, ok := canonicalNumber(args[0]).(slip.Fixnum)
 	if !ok || index < 0 {
 		slip.TypePanic(s, depth, "index", args[0], "non-negative fixnum")
 	}
